@@ -811,7 +811,7 @@ Definition ex_env : sigenv :=
   [(7%N, [mkparam 1%N PosOrKw None false; mkparam 2%N PosOrKw None false])].
 Definition ex_heap : heap :=
   [ NList [RA (AInt 1)];                                             (* 0: the shared list *)
-    NTuple [RA (AInt 2); RA (ASym 9%N)];                             (* 1: an internable tuple *)
+    NTuple [RA (AInt 2); RA (AInt 3)];                               (* 1: an internable tuple *)
     NTuple [RP 0; RA (AInt 5)];                                      (* 2: a tuple holding the list *)
     NBuildable BConfig 7%N [(KName 1%N, RP 0); (KName 2%N, RP 1)] [];
     NDict [(AStr [1%N], RP 3); (AStr [2%N], RP 0); (AStr [3%N], RP 1); (AStr [4%N], RP 2);
@@ -840,5 +840,5 @@ Example iterate_nonvacuous :
     = [(RP 0, [PKey (AStr [1%N]); PAttr 1%N])] /\
   count_occ ref_eq_dec (map fst (snd (iter_memo ex_env ex_heap false fuel [] ex_root []))) (RP 1) = 2 /\
   count_occ ref_eq_dec (map fst (snd (iter_memo ex_env ex_heap true fuel [] ex_root []))) (RP 1) = 1 /\
-  length (snd (iter_memo ex_env ex_heap false fuel [] ex_root [])) = 11.
+  length (snd (iter_memo ex_env ex_heap false fuel [] ex_root [])) = 13.
 Proof. vm_compute. repeat split. Qed.
